@@ -570,6 +570,26 @@ func (ex *Ex) react(c *Conn, p *refcodec.Packet) {
 		if c.AckMode != 3 && p.ReasonCode < 0x80 {
 			ex.enqueue(c, &refcodec.Packet{Type: refcodec.PUBREL, PacketID: p.PacketID}, -1, refcodec.EncOpts{}, 0)
 		}
+	case refcodec.DISCONNECT:
+		if c.Redial && p.ReasonCode == 0x8B && ex.nl != nil {
+			ex.redial(c)
+		}
+	}
+}
+
+// redial: an auto-reconnecting client opens a new connection with the same CONNECT the instant it reads the
+// broker's "server shutting down": the dial lands inside the shutdown sweep.
+func (ex *Ex) redial(old *Conn) {
+	op := &ex.Plan.Ops[old.ConnectOp]
+	if op.Pkt == nil {
+		return
+	}
+	c := &Conn{ex: ex, Idx: len(ex.Conns), Slot: old.Slot + 100, notify: make(chan struct{}, 1), AckMode: old.AckMode, ConnectOp: old.ConnectOp, closeSeq: -1, Ver: old.Ver, CID: old.CID}
+	c.openSeq = ex.H.add(&Ev{Kind: "open", Conn: c.Idx, Str: "redial", N: int64(c.Slot)})
+	ex.Conns = append(ex.Conns, c)
+	ex.enqueue(c, op.Pkt, -1, op.Enc, op.Pkt.ProtoVer)
+	if !ex.nl.push(c) {
+		c.peerClose("refused")
 	}
 }
 
@@ -734,7 +754,7 @@ func (ex *Ex) issue(i int, op *Op) {
 	ex.opSeq[i] = ex.H.add(&Ev{Kind: "op", Conn: -1, Op: i, hasOp: true, Str: op.Kind, N: int64(op.Slot)})
 	switch op.Kind {
 	case "connect":
-		c := &Conn{ex: ex, Idx: len(ex.Conns), Slot: op.Slot, notify: make(chan struct{}, 1), AckMode: op.AckMode, ConnectOp: i, closeSeq: -1}
+		c := &Conn{ex: ex, Idx: len(ex.Conns), Slot: op.Slot, notify: make(chan struct{}, 1), AckMode: op.AckMode, ConnectOp: i, closeSeq: -1, Redial: op.Note == "auto-reconnect"}
 		c.Ver = 4
 		if op.Pkt != nil {
 			c.CID = op.Pkt.ClientID
@@ -747,6 +767,15 @@ func (ex *Ex) issue(i int, op *Op) {
 		c.openSeq = ex.H.add(&Ev{Kind: "open", Conn: c.Idx, Op: i, hasOp: true, N: int64(op.Slot)})
 		ex.Conns = append(ex.Conns, c)
 		ex.slots[op.Slot] = c
+		switch op.Fault { // a connection that is born faulty: the broker's N-th write on it (0 = the CONNACK) fails, or blocks
+		case "failwrite":
+			c.failWriteAt = 1 + op.N
+		case "short":
+			c.shortWriteAt = 1 + op.N
+		case "stall":
+			c.stall()
+			ex.H.add(&Ev{Kind: "stall-on", Conn: c.Idx})
+		}
 		if op.Pkt != nil {
 			ex.enqueue(c, op.Pkt, i, op.Enc, op.Pkt.ProtoVer)
 		} else if op.Raw != nil {
